@@ -56,7 +56,7 @@ def tolerated(ctx):
 def grid(rng):
     """The fixed part of the instance grid: every value of every axis at least once."""
     rows = [
-        dict(bus="wishbone", bus_dw=32, ic="shared", csr_dw=32, paging=0x800, ordering="big", csr_aw=14, csr_origin=0),
+        dict(bus="wishbone", bus_dw=32, ic="shared", csr_dw=32, paging=0x800, ordering="big", csr_aw=14, csr_origin=0, big_prob=1.0),
         dict(bus="wishbone", bus_dw=32, ic="crossbar", csr_dw=32, paging=0x400, ordering="big", csr_aw=15, csr_origin=0xf0000000),
         dict(bus="wishbone", bus_dw=64, ic="shared", csr_dw=32, paging=0x1000, ordering="big", csr_aw=14, csr_origin=0x82000000),
         dict(bus="wishbone", bus_dw=64, ic="crossbar", csr_dw=32, paging=0x800, ordering="big", csr_aw=16, bus_aw=64,
@@ -76,6 +76,7 @@ def grid(rng):
         mr = row.pop("max_regs", 6)
         cfg = L.gen_cfg(rng, max_regs=mr, **row)
         cfg.pop("max_regs", None)
+        cfg.pop("big_prob", None)
         out.append(cfg)
     return out
 
@@ -234,6 +235,8 @@ def correspond(ctx):
     run_corpus(ctx, dis)
     rng = random.Random(ctx.rng.getrandbits(48))
     def cap(cfg):
+        if any(r["name"] == "big" for p in cfg["periphs"] for r in p["regs"]) and cfg["csr_dw"] == 32 and cfg["bus"] == "wishbone":
+            return None     # walk the whole long bank
         # 8-bit CSR buses quadruple the sub-accesses (and the AXI converters are slow to simulate): sample registers
         if cfg["csr_dw"] == 8:
             if plan["max_regs"] is None:
